@@ -330,4 +330,56 @@ theorem specArgsList_from (cfg : LoadCfg) : ∀ (m : List InpCrown) (d : Val) (i
       exact ⟨q, by simp [InpCrown.leaves.goL, hq], hc⟩
 end
 
+/-! ### the reading depends on the field loaders and the shape only (not on the debug / coercion mode) -/
+
+theorem specFieldDict_congr (c1 c2 : LoadCfg) (hl : c1.loader = c2.loader) (hf : c1.fields = c2.fields)
+    (d : Val) (k id : String) : specFieldDict c1 d k id = specFieldDict c2 d k id := by
+  unfold specFieldDict LoadCfg.field
+  rw [hl, hf]
+
+theorem specFieldList_congr (c1 c2 : LoadCfg) (hl : c1.loader = c2.loader)
+    (d : Val) (i : Nat) (id : String) : specFieldList c1 d i id = specFieldList c2 d i id := by
+  unfold specFieldList
+  rw [hl]
+
+mutual
+theorem specArgs_congr (c1 c2 : LoadCfg) (hl : c1.loader = c2.loader) (hf : c1.fields = c2.fields) :
+    ∀ (c : InpCrown) (d : Val), specArgs c1 c d = specArgs c2 c d
+  | .dict m pol, d => by simpa [specArgs] using specArgsDict_congr c1 c2 hl hf m d
+  | .list m pol, d => by simpa [specArgs] using specArgsList_congr c1 c2 hl hf m d 0
+  | .field _, d => by simp [specArgs]
+  | .none, d => by simp [specArgs]
+theorem specArgsDict_congr (c1 c2 : LoadCfg) (hl : c1.loader = c2.loader) (hf : c1.fields = c2.fields) :
+    ∀ (m : List (String × InpCrown)) (d : Val), specArgsDict c1 d m = specArgsDict c2 d m
+  | [], d => by simp [specArgsDict]
+  | (k, .none) :: r, d => by simpa [specArgsDict] using specArgsDict_congr c1 c2 hl hf r d
+  | (k, .field id) :: r, d => by
+    simp [specArgsDict, specFieldDict_congr c1 c2 hl hf, specArgsDict_congr c1 c2 hl hf r d]
+  | (k, .dict m' pol) :: r, d => by
+    simp only [specArgsDict, specArgsDict_congr c1 c2 hl hf r d]
+    cases d.getItem (.s k) <;> simp [specArgs_congr c1 c2 hl hf (.dict m' pol)]
+  | (k, .list m' pol) :: r, d => by
+    simp only [specArgsDict, specArgsDict_congr c1 c2 hl hf r d]
+    cases d.getItem (.s k) <;> simp [specArgs_congr c1 c2 hl hf (.list m' pol)]
+theorem specArgsList_congr (c1 c2 : LoadCfg) (hl : c1.loader = c2.loader) (hf : c1.fields = c2.fields) :
+    ∀ (m : List InpCrown) (d : Val) (i : Nat), specArgsList c1 d i m = specArgsList c2 d i m
+  | [], d, i => by simp [specArgsList]
+  | .none :: r, d, i => by simpa [specArgsList] using specArgsList_congr c1 c2 hl hf r d (i + 1)
+  | .field id :: r, d, i => by
+    simp [specArgsList, specFieldList_congr c1 c2 hl, specArgsList_congr c1 c2 hl hf r d (i + 1)]
+  | .dict m' pol :: r, d, i => by
+    simp only [specArgsList, specArgsList_congr c1 c2 hl hf r d (i + 1)]
+    cases d.getItem (.i i) <;> simp [specArgs_congr c1 c2 hl hf (.dict m' pol)]
+  | .list m' pol :: r, d, i => by
+    simp only [specArgsList, specArgsList_congr c1 c2 hl hf r d (i + 1)]
+    cases d.getItem (.i i) <;> simp [specArgs_congr c1 c2 hl hf (.list m' pol)]
+end
+
+theorem specTargets_congr (c1 c2 : LoadCfg) (hl : c1.loader = c2.loader) (hf : c1.fields = c2.fields)
+    (pol : Policy) (ex : Val) : ∀ (ts : List String), specTargets c1 pol ex ts = specTargets c2 pol ex ts
+  | [] => by simp [specTargets]
+  | t :: r => by
+    simp only [specTargets, specTargets_congr c1 c2 hl hf pol ex r, LoadCfg.field, hl, hf]
+    rfl
+
 end Adaptix.Layout
